@@ -9,7 +9,8 @@ def run(ctx, res):
     res.rules_run += ["C05.ts/C05.span/C05.vol (fragment events of P = fragment events of R: every reserved entry closed once, exact begin/end offsets, volume = count_now - index)",
                       "C05.pos (Parser.position has one writer, adding the consumed character's len)",
                       "C05.append (CodeMap entries are only appended by reserve and only completed through get_mut in end_fragment)"]
-    prod = parsercheck.apply(ctx, res, ["C05.", "E2."], strict_only=True)
+    # the code map is produced under every option valuation (the lenient flags only change how surrogate escapes decode)
+    prod = parsercheck.apply(ctx, res, ["C05.", "E2."], strict_only=False)
     for run in prod["runs"][:1]:
         res.ob(run.get("initial_position_ok", False), "C05.pos", "C05.pos/initial", "a fresh parser does not start at position 0")
     position_writers(ctx, res)
